@@ -235,22 +235,21 @@ ValCaseSet == {c \in ValCases : ValidVal(c)}
 \* survive; required members (text / data / content / resource text-or-blob) absent or null in the encoding.
 \* Code shape: content.go writes image/audio/tool_result/tool_use through dedicated wire structs without
 \* omitempty on required members; TextContent likewise; ResourceContents has `text,omitempty` and
-\* `blob,omitzero`, so an empty text resource carries neither.  unmarshalContent rejects a JSON null
-\* content, which is what a nil Content slice of the single-or-array containers encodes to.
-\* ToolResultContent.MarshalJSON re-encodes its nested content through the shared wireContent struct,
-\* whose text / data members are omitempty: zero-valued nested text, image and audio lose them.
+\* `blob,omitzero`, so an empty text resource carries neither (the repository's TestEmbeddedResource pins it).
+\* unmarshalContent rejects a JSON null content; SamplingMessageV2 / CreateMessageWithToolsResult.MarshalJSON
+\* encode a nil Content slice as [] (since commit 3aa8593; before, it was null and did not decode again).
+\* ToolResultContent.MarshalJSON embeds every nested block as that block marshals itself (since commit
+\* 8a25e5f; before, it went through the shared wireContent struct, whose omitempty text / data members
+\* dropped the required members of zero-valued nested text, image and audio).
 ExpectedVal(c) ==
-  [ok |-> ~(c.cont \in {"samplingv2", "createmsgtools"} /\ c.arity = "nil"),
+  [ok |-> TRUE,
    lost |-> {},
-   missing |-> (IF c.ckind = "resource_text" /\ c.fill = "zero" THEN {"resource.text|blob"} ELSE {})
-          \cup (IF c.nested = "zeros" THEN {"text.text", "image.data", "audio.data"} ELSE {})]
+   missing |-> IF c.ckind = "resource_text" /\ c.fill = "zero" THEN {"resource.text|blob"} ELSE {}]
 
 ValRoundTrip(c, o) == o.ok /\ o.lost = {}
 RequiredPresentVal(c, o) == o.missing = {}
 HoldsVal(c, o) == ValRoundTrip(c, o) /\ RequiredPresentVal(c, o)
-ValLead(c) == \/ c.ckind = "resource_text" /\ c.fill = "zero"
-              \/ c.nested = "zeros"
-              \/ c.cont \in {"samplingv2", "createmsgtools"} /\ c.arity = "nil"
+ValLead(c) == c.ckind = "resource_text" /\ c.fill = "zero"
 
 -----------------------------------------------------------------------------
 (* 4. Required members in what real sessions send                             *)
@@ -283,19 +282,18 @@ ValidReq(c) == /\ (c.type \in {"ListToolsResult", "ListPromptsResult", "ListReso
 ReqCaseSet == {c \in ReqCases : ValidReq(c)}
 
 \* Outcome [sent, present, nonnull]: sent \in {"result", "error", "none"}.
-\* Code shape: server.go replaces nil by empty for list results and CallToolResult.content, and answers a
-\* read with nil contents by an error; nothing does so for GetPromptResult.messages,
-\* CompleteResult.completion.values or the sampling result's content.
+\* Code shape: server.go replaces nil by empty for list results, CallToolResult.content,
+\* GetPromptResult.messages (since commit e960169) and CompleteResult.completion.values (since 0ffdf39),
+\* and answers a read with nil contents by an error; CreateMessageWithToolsResult.MarshalJSON writes a
+\* nil Content as [] (since 3aa8593).
 ExpectedReq(c) ==
   IF c.type = "ReadResourceResult" /\ c.fill = "nil" THEN [sent |-> "error", present |-> FALSE, nonnull |-> FALSE]
-  ELSE IF c.type \in {"GetPromptResult", "CompleteResult", "CreateMessageWithToolsResult"} /\ c.fill = "nil"
-       THEN [sent |-> "result", present |-> TRUE, nonnull |-> FALSE]
   ELSE [sent |-> "result", present |-> TRUE, nonnull |-> TRUE]
 
 Answered(c, o) == o.sent # "none"
 RequiredPresent(c, o) == o.sent = "result" => (o.present /\ o.nonnull)
 HoldsReq(c, o) == Answered(c, o) /\ RequiredPresent(c, o)
-ReqLead(c) == c.type \in {"GetPromptResult", "CompleteResult", "CreateMessageWithToolsResult"} /\ c.fill = "nil"
+ReqLead(c) == FALSE
 
 -----------------------------------------------------------------------------
 (* 5. Case sensitivity of the decoders of MCP values                          *)
